@@ -13,6 +13,7 @@
 package main
 
 import (
+	"context"
 	"encoding/binary"
 	"encoding/json"
 	"fmt"
@@ -179,7 +180,7 @@ func genScenario(r *hx.Rng, name string, thorough bool) scenario {
 		order = append(order, i)
 	}
 	swaps := r.Intn(3)
-	if r.Chance(1, 3) {
+	if r.Chance(1, 5) {
 		swaps += maxBlocks
 	}
 	for s := 0; s < swaps; s++ {
@@ -203,7 +204,7 @@ func genScenario(r *hx.Rng, name string, thorough bool) scenario {
 				sub = 1 + r.Intn(3)
 			}
 			sc.lines = append(sc.lines, fmt.Sprintf("addc b%d %d %d", b, k, sub))
-			if r.Chance(1, 4) {
+			if r.Chance(1, 2) {
 				sc.lines = append(sc.lines, fmt.Sprintf("restartc %d 0", r.Intn(9)))
 				if r.Chance(1, 3) {
 					sc.lines = append(sc.lines, fmt.Sprintf("restartc %d 0", r.Intn(9)))
@@ -1135,11 +1136,13 @@ func main() {
 				os.MkdirAll(d, 0755)
 				scn := filepath.Join(d, "scn.txt")
 				ioutil.WriteFile(scn, []byte(strings.Join(j.sc.lines, "\n")), 0644)
-				cmd := exec.Command(self, "child=1", "scn="+scn, "name="+j.sc.name, "ops="+filepath.Join(d, "ops"), "obs="+filepath.Join(d, "obs"),
+				cctx, cancel := context.WithTimeout(context.Background(), 30*time.Second)
+				cmd := exec.CommandContext(cctx, self, "child=1", "scn="+scn, "name="+j.sc.name, "ops="+filepath.Join(d, "ops"), "obs="+filepath.Join(d, "obs"),
 					"result="+filepath.Join(d, "result"))
 				cmd.Dir = d
 				cmd.Env = append(os.Environ(), "GOMAXPROCS=2")
 				outb, err := cmd.CombinedOutput()
+				cancel()
 				if err != nil {
 					tail := string(outb)
 					if len(tail) > 1500 {
